@@ -5,6 +5,8 @@ from __future__ import annotations
 import time
 from typing import Any, Callable
 
+import z3
+
 from engine import symx
 from . import common, monitors, trav
 
@@ -31,9 +33,13 @@ class ReplayEngine(symx.Engine):
     def assume(self, cond: Any, check: bool = True) -> None:
         return None
 
-    def decide(self, cond: Any, label: str = "") -> bool:
+    def decide(self, cond: Any, label: str = "", prefer: Any = None) -> bool:
         if isinstance(cond, bool):
             return cond
+        if z3.is_true(cond):
+            return True
+        if z3.is_false(cond):
+            return False
         return bool(self._next(label, "bool"))
 
     def pick(self, n: int, label: str = "") -> int:
